@@ -750,6 +750,40 @@ theorem ecdhes_same_curve (o : Oracle) (hlaw : EcdhLaw o) (s : Nat) (op : KwOp) 
     have := hlaw _ _ _ (run_prim_ok o _ _ hz)
     cases c <;> cases c' <;> simp [DhCrv.name] at this ⊢
 
+/-- **sig_ops_never_panic.**  `Sign` and `Verify` of any constructed signing key end in success or
+    an error, never a panic — in particular a public-only key asked to sign (RSA, EC, Ed25519, Ed448)
+    answers "sign method is unavailable". -/
+theorem sig_ops_never_panic (o : Oracle) (sk : SigningKey) (n : Nat) (ctx : Wire) (s : String) :
+    (sign sk).run o ≠ .panic s ∧ (verify sk n ctx).run o ≠ .panic s := by
+  constructor
+  · cases sk with
+    | invalid => simp [sign]
+    | errKey => simp [sign]
+    | hmac h len cs cv => cases cs <;> simp [sign]
+    | rsa pss h hp b cs cv => cases cs <;> cases hp <;> simp [sign, run_prim] <;> split <;> simp
+    | ecdsa h priv pub cs cv => cases cs <;> cases priv <;> simp [sign, run_prim] <;> split <;> simp
+    | ed25519 hp cs cv => cases cs <;> cases hp <;> simp [sign]
+    | ed448 hp cs cv => cases cs <;> cases hp <;> simp [sign]
+    | none => simp [sign]
+  · cases sk with
+    | invalid => simp [verify]
+    | errKey => simp [verify]
+    | hmac h len cs cv => cases cv <;> simp [verify, run_prim] <;> split <;> simp
+    | rsa pss h hp b cs cv => cases cv <;> simp [verify, run_prim] <;> split <;> simp
+    | ecdsa h priv pub cs cv =>
+      cases pub with
+      | none => simp [verify]
+      | some c =>
+        cases cv
+        · simp [verify]
+        · simp only [verify]
+          by_cases hn : n = 2 * c.byteSize
+          · simp [hn, run_prim]; split <;> simp
+          · simp [hn]
+    | ed25519 hp cs cv => cases cv <;> simp [verify, run_prim] <;> split <;> simp
+    | ed448 hp cs cv => cases cv <;> simp [verify, run_prim] <;> split <;> simp
+    | none => simp only [verify]; split <;> simp
+
 /-! ## end to end: allow-list ∘ key finder ∘ key binding -/
 
 /-- **C03 end to end, JWS.**  With the stock `JWKKeyFinder` holding key `k`: if `Verifier.Verify`
@@ -1093,6 +1127,11 @@ example : ∃ sk, newSigningKey .eddsa (some (KeyKind.toKey .ed448Priv)) = .ok s
 example : ∃ sk, newSigningKey .eddsa (some (KeyKind.toKey .x25519Priv)) = .ok sk ∧
     (verify sk 64).run yes = .err "invalid-key" := ⟨_, rfl, rfl⟩
 
+-- a public-only EdDSA key verifies but answers "unavailable" when asked to sign (no panic)
+example : ∃ sk, newSigningKey .eddsa (some (KeyKind.toKey .ed25519Pub)) = .ok sk ∧
+    (sign sk).run yes = .err "op-not-allowed" ∧ (verify sk 64).run yes = .ok () := ⟨_, rfl, rfl, rfl⟩
+example : ∃ sk, newSigningKey .eddsa (some (KeyKind.toKey .ed448Pub)) = .ok sk ∧
+    (sign sk).run yes = .err "op-not-allowed" := ⟨_, rfl, rfl⟩
 -- kw_key_binding: A128KW with a 16-byte key wraps, with a 32-byte key it does not; RSA-OAEP with
 -- 2048 bits wraps and unwraps, with 1024 bits it is refused; ECDH-ES between matching kinds only
 example : ∃ kw, newKeyWrapper (.akw 16) (some (KeyKind.toKey (.oct 16))) = .ok kw ∧
